@@ -1,6 +1,7 @@
 import ThriftVerif.Lib.PegTree
 import ThriftVerif.Lib.WalkerLemmas
 import ThriftVerif.Generated.C03Grammar
+set_option linter.unusedSimpArgs false
 /-
   The walker does not panic on the trees the matcher builds for the regenerated grammar:
   generic part (pegText, comments) and the per-rule part for the rules listed in docs/C03.md.
@@ -64,8 +65,6 @@ end Generic
 abbrev G := Generated.C03.grammar
 abbrev NUL := Generated.C03.nul
 abbrev ids := Generated.C03.ids
-open Generated.C03 in
-abbrev dummyR := R.Document
 open Generated.C03
 
 /-- body of rule `r` in the regenerated grammar -/
@@ -77,63 +76,73 @@ theorem body_eq {r : Nat} {body : Expr} (h : G.rules[r]? = some body) : body = r
   simp [ruleBody, List.getD_eq_getElem?_getD, this]
 
 /-- a call of a rule marked non-nullable leaves exactly one node, whose children conform to the rule's body -/
-theorem kids_call {r : Nat} {t : T} (hnul : NUL.getD r true = false) (h : Kids G NUL (.call r) t) :
-    ∃ b e up, t = .node r b e up .nil ∧ b < e ∧ Kids G NUL (ruleBody r) up := by
-  rcases h.call_inv with ⟨_, h2⟩ | ⟨body, b, e, up, hb, rfl, hlt, hk⟩
+theorem kids_call {r lo hi : Nat} {t : T} (hnul : NUL.getD r true = false) (h : Kids G NUL (.call r) lo hi t) :
+    ∃ up, t = .node r lo hi up .nil ∧ lo < hi ∧ Kids G NUL (ruleBody r) lo hi up := by
+  rcases h.call_inv with ⟨_, _, h2⟩ | ⟨body, up, hb, rfl, hlt, hk⟩
   · rw [hnul] at h2; cases h2
-  · exact ⟨b, e, up, rfl, hlt, body_eq hb ▸ hk⟩
+  · exact ⟨up, rfl, hlt, body_eq hb ▸ hk⟩
+
+/-- a call of any rule over a non-empty span leaves its node -/
+theorem kids_call_span {r lo hi : Nat} {t : T} (hlt : lo < hi) (h : Kids G NUL (.call r) lo hi t) :
+    ∃ up, t = .node r lo hi up .nil ∧ Kids G NUL (ruleBody r) lo hi up := by
+  rcases h.call_inv with ⟨_, h1, _⟩ | ⟨body, up, hb, rfl, _, hk⟩
+  · omega
+  · exact ⟨up, rfl, body_eq hb ▸ hk⟩
 
 /-- a call of any rule leaves nothing or one node -/
-theorem kids_call_opt {r : Nat} {t : T} (h : Kids G NUL (.call r) t) :
-    t = .nil ∨ ∃ b e up, t = .node r b e up .nil ∧ b < e ∧ Kids G NUL (ruleBody r) up := by
-  rcases h.call_inv with ⟨h1, _⟩ | ⟨body, b, e, up, hb, rfl, hlt, hk⟩
-  · exact .inl h1
-  · exact .inr ⟨b, e, up, rfl, hlt, body_eq hb ▸ hk⟩
+theorem kids_call_opt {r lo hi : Nat} {t : T} (h : Kids G NUL (.call r) lo hi t) :
+    (t = .nil ∧ lo = hi) ∨ ∃ up, t = .node r lo hi up .nil ∧ lo < hi ∧ Kids G NUL (ruleBody r) lo hi up := by
+  rcases h.call_inv with ⟨h1, h2, _⟩ | ⟨body, up, hb, rfl, hlt, hk⟩
+  · exact .inl ⟨h1, h2⟩
+  · exact .inr ⟨up, rfl, hlt, body_eq hb ▸ hk⟩
 
-/-- every node of a sibling chain satisfies `P rule up` -/
-inductive All (P : Nat → T → Prop) : T → Prop
+/-- every node of a sibling chain satisfies `P rule begin end up` -/
+inductive All (P : Nat → Nat → Nat → T → Prop) : T → Prop
   | nil : All P .nil
-  | node {r b e up next} : P r up → All P next → All P (.node r b e up next)
+  | node {r b e up next} : P r b e up → All P next → All P (.node r b e up next)
 
-theorem All.append {P : Nat → T → Prop} {a b : T} (ha : All P a) (hb : All P b) : All P (a.append b) := by
+theorem All.append {P : Nat → Nat → Nat → T → Prop} {a b : T} (ha : All P a) (hb : All P b) : All P (a.append b) := by
   induction ha with
   | nil => exact hb
   | node h _ ihn => exact .node h ihn
 
-theorem All.imp {P Q : Nat → T → Prop} {t : T} (h : All P t) (hpq : ∀ r up, P r up → Q r up) : All Q t := by
+theorem All.imp {P Q : Nat → Nat → Nat → T → Prop} {t : T} (h : All P t) (hpq : ∀ r b e up, P r b e up → Q r b e up) :
+    All Q t := by
   induction h with
   | nil => exact .nil
-  | node h _ ihn => exact .node (hpq _ _ h) ihn
+  | node h _ ihn => exact .node (hpq _ _ _ _ h) ihn
+
+/-- a node of rule `r` whose children conform to the rule's body over the node's span -/
+def IsRule (r : Nat) : Nat → Nat → Nat → T → Prop := fun r' b e up => r' = r ∧ b < e ∧ Kids G NUL (ruleBody r) b e up
 
 /-- the chain a `(call r)*` leaves: nodes of rule `r` whose children conform -/
-theorem kids_star_call {r : Nat} {t : T} (h : Kids G NUL (.star (.call r)) t) :
-    All (fun r' up => r' = r ∧ Kids G NUL (ruleBody r) up) t := by
+theorem kids_star_call {r lo hi : Nat} {t : T} (h : Kids G NUL (.star (.call r)) lo hi t) : All (IsRule r) t := by
   generalize he : Expr.star (.call r) = e at h
   induction h with
   | starNil => exact .nil
   | starCons h1 _ _ ih2 =>
     injection he with he'
     subst he'
-    rcases kids_call_opt h1 with rfl | ⟨b, e, up, rfl, _, hk⟩
+    rcases kids_call_opt h1 with ⟨rfl, _⟩ | ⟨up, rfl, hlt, hk⟩
     · exact ih2 rfl
-    · exact All.append (.node ⟨rfl, hk⟩ .nil) (ih2 rfl)
+    · exact All.append (.node ⟨rfl, hlt, hk⟩ .nil) (ih2 rfl)
   | _ => cases he
 
 /-! ### annotations -/
 
 theorem parseAnnotation_np (buf : Array Nat) (n : Nat) (hn : n ≤ buf.size) (b e : Nat) (up next : T)
-    (hs : Safe ids.rPegText n up) (hk : Kids G NUL (ruleBody ids.rAnnotation) up) :
+    (hs : Safe ids.rPegText n up) (hk : Kids G NUL (ruleBody ids.rAnnotation) b e up) :
     NP (parseAnnotation ids buf (.node ids.rAnnotation b e up next)) := by
-  change Kids G NUL (.seq (.call ids.rIdentifier) (.seq (.call ids.rEQUAL) (.seq (.call ids.rLiteral) (.opt (.call ids.rListSeparator))))) up at hk
+  change Kids G NUL (.seq (.call ids.rIdentifier) (.seq (.call ids.rEQUAL) (.seq (.call ids.rLiteral) (.opt (.call ids.rListSeparator))))) b e up at hk
   cases hk with
   | seq h1 h2 =>
-    obtain ⟨b1, e1, u1, rfl, _, _⟩ := kids_call (by decide) h1
+    obtain ⟨u1, rfl, _, _⟩ := kids_call (by decide) h1
     cases h2 with
     | seq h2 h3 =>
-      obtain ⟨b2, e2, u2, rfl, _, _⟩ := kids_call (by decide) h2
+      obtain ⟨u2, rfl, _, _⟩ := kids_call (by decide) h2
       cases h3 with
       | seq h3 h4 =>
-        obtain ⟨b3, e3, u3, rfl, _, _⟩ := kids_call (by decide) h3
+        obtain ⟨u3, rfl, _, _⟩ := kids_call (by decide) h3
         simp only [T.append] at hs ⊢
         obtain ⟨k, hk⟩ := pegText_ok ids buf hn hs
         obtain ⟨v, hv⟩ := pegText_ok ids buf hn hs.next.next
@@ -141,7 +150,8 @@ theorem parseAnnotation_np (buf : Array Nat) (n : Nat) (hn : n ≤ buf.size) (b 
         simp [parseAnnotation, checkrule, rule?, up?, next?, hk, hv]
 
 theorem annLoop_np (buf : Array Nat) (n : Nat) (hn : n ≤ buf.size) : ∀ (t : T) (acc : Anns),
-    Safe ids.rPegText n t → All (fun r up => r = ids.rAnnotation → Kids G NUL (ruleBody ids.rAnnotation) up) t →
+    Safe ids.rPegText n t →
+    All (fun r b e up => r = ids.rAnnotation → Kids G NUL (ruleBody ids.rAnnotation) b e up) t →
     NP (annLoop ids buf acc t) := by
   intro t
   induction t with
@@ -163,19 +173,717 @@ theorem annLoop_np (buf : Array Nat) (n : Nat) (hn : n ≤ buf.size) : ∀ (t : 
       · exact ihn _ hs.next hrest
 
 theorem parseAnnotations_np (buf : Array Nat) (n : Nat) (hn : n ≤ buf.size) (b e : Nat) (up next : T)
-    (hs : Safe ids.rPegText n up) (hk : Kids G NUL (ruleBody ids.rAnnotations) up) :
+    (hs : Safe ids.rPegText n up) (hk : Kids G NUL (ruleBody ids.rAnnotations) b e up) :
     NP (parseAnnotations ids buf (.node ids.rAnnotations b e up next)) := by
-  change Kids G NUL (.seq (.call R.LPAR) (.seq (.star (.call ids.rAnnotation)) (.call R.RPAR))) up at hk
+  change Kids G NUL (.seq (.call R.LPAR) (.seq (.star (.call ids.rAnnotation)) (.call R.RPAR))) b e up at hk
   cases hk with
   | seq h1 h2 =>
-    obtain ⟨b1, e1, u1, rfl, _, _⟩ := kids_call (by decide) h1
+    obtain ⟨u1, rfl, _, _⟩ := kids_call (by decide) h1
     cases h2 with
     | seq h2 h3 =>
-      obtain ⟨b3, e3, u3, rfl, _, _⟩ := kids_call (by decide) h3
+      obtain ⟨u3, rfl, _, _⟩ := kids_call (by decide) h3
       have hall := kids_star_call h2
       simp only [T.append] at hs ⊢
       have hloop := annLoop_np buf n hn _ [] hs.next
-        (All.append (hall.imp (fun r up h _ => h.2)) (.node (fun h => absurd h (by decide)) .nil))
+        (All.append (hall.imp (fun r b e up h _ => h.2.2)) (.node (fun h => absurd h (by decide)) .nil))
       simpa [parseAnnotations, checkrule, rule?, up?, next?] using hloop
 
+/-- what callers know about a node that `isRule … rAnnotations` accepts -/
+theorem parseAnnotations_np' (buf : Array Nat) (n : Nat) (hn : n ≤ buf.size) (r b e : Nat) (up next : T)
+    (hs : Safe ids.rPegText n up) (hr : r = ids.rAnnotations) (hk : Kids G NUL (ruleBody ids.rAnnotations) b e up) :
+    NP (parseAnnotations ids buf (.node r b e up next)) := by
+  subst hr; exact parseAnnotations_np buf n hn b e up next hs hk
+
+/-! ### every node conforms to its own rule -/
+
+/-- non-empty, and (unless it is a capture) its children are described by its rule's body over its span -/
+def Good : Nat → Nat → Nat → T → Prop :=
+  fun r b e up => b < e ∧ (r ≠ G.pegText → Kids G NUL (ruleBody r) b e up)
+
+theorem kids_all_good {ex : Expr} {lo hi : Nat} {t : T} (h : Kids G NUL ex lo hi t) : All Good t := by
+  induction h with
+  | callNode hb hk hlt _ =>
+    refine .node ⟨hlt, fun _ => body_eq hb ▸ hk⟩ .nil
+  | seq _ _ ih1 ih2 => exact ih1.append ih2
+  | altL _ ih => exact ih
+  | altR _ ih => exact ih
+  | starCons _ _ ih1 ih2 => exact ih1.append ih2
+  | plus _ _ ih1 ih2 => exact ih1.append ih2
+  | optSome _ ih => exact ih
+  | capNode _ hlt _ => exact .node ⟨hlt, fun h => absurd rfl h⟩ .nil
+  | _ => exact .nil
+
+theorem All.tail {P : Nat → Nat → Nat → T → Prop} {r b e : Nat} {up next : T} (h : All P (.node r b e up next)) : All P next := by
+  cases h with | node _ hn => exact hn
+
+theorem All.head {P : Nat → Nat → Nat → T → Prop} {r b e : Nat} {up next : T} (h : All P (.node r b e up next)) : P r b e up := by
+  cases h with | node hp _ => exact hp
+
+theorem Good.kids {r b e : Nat} {up : T} (h : Good r b e up) (hr : r ≠ G.pegText) : Kids G NUL (ruleBody r) b e up := h.2 hr
+
+/-! ### comments -/
+
+theorem commentLoop_np (buf : Array Nat) (n : Nat) (hn : n ≤ buf.size) : ∀ (t : T),
+    Safe ids.rPegText n t → All Good t → NP (commentLoop ids buf t) := by
+  intro t
+  induction t with
+  | nil => intro _ _; simp [commentLoop]
+  | node r b e up next _ ihn =>
+    intro hs ha
+    have ihn' := ihn hs.next ha.tail
+    simp only [commentLoop]
+    split
+    · rename_i hr
+      have hk := ha.head.kids (by rw [hr]; decide)
+      rw [hr] at hk
+      change Kids G NUL (.alt (.call R.LongComment) (.alt (.call R.LineComment) (.call R.UnixComment))) b e up at hk
+      have hlt := ha.head.1
+      have hup : ∃ u, ∃ r', up = .node r' b e u .nil := by
+        cases hk with
+        | altL h => obtain ⟨u, rfl, _⟩ := kids_call_span hlt h; exact ⟨u, _, rfl⟩
+        | altR h =>
+          cases h with
+          | altL h => obtain ⟨u, rfl, _⟩ := kids_call_span hlt h; exact ⟨u, _, rfl⟩
+          | altR h => obtain ⟨u, rfl, _⟩ := kids_call_span hlt h; exact ⟨u, _, rfl⟩
+      obtain ⟨u, r', rfl⟩ := hup
+      have hsu := hs.up
+      cases hsu with
+      | node h1 h2 _ _ _ =>
+        have : ¬ (e > buf.size ∨ b > e) := by omega
+        simp only [this, if_false]
+        cases hc : commentLoop ids buf next with
+        | ok cs => simp
+        | err => simp
+        | panic => exact absurd hc ihn'.1
+        | crash => exact absurd hc ihn'.2
+    · exact ihn'
+
+/-- parseReservedComments on a ReservedComments node and parseReservedEndLineComments on its node -/
+theorem parseReservedComments_np (buf : Array Nat) (n : Nat) (hn : n ≤ buf.size) (rule inner : Nat) (b e : Nat) (up next : T)
+    (hs : Safe ids.rPegText n up) (hlt : b < e) (hk : Kids G NUL (.call inner) b e up) :
+    NP (parseReservedComments ids buf (.node rule b e up next) rule) := by
+  obtain ⟨u, rfl, hku⟩ := kids_call_span hlt hk
+  have := commentLoop_np buf n hn u hs.up (kids_all_good hku)
+  simp only [parseReservedComments, checkrule, rule?, up?, ne_eq, not_true_eq_false, if_false, bind_ok]
+  exact NP_bind this (fun _ _ => by simp)
+
+/-! ### types -/
+
+theorem W_bind_assoc {α β γ} (x : W α) (f : α → W β) (g : β → W γ) :
+    (x >>= f) >>= g = x >>= fun a => f a >>= g := by cases x <;> rfl
+
+theorem pegText_np (buf : Array Nat) {n : Nat} (hn : n ≤ buf.size) {t : T} (hs : Safe ids.rPegText n t) :
+    NP (pegText ids buf t) := by
+  obtain ⟨s, h⟩ := pegText_ok ids buf hn hs
+  rw [h]; simp
+
+theorem cppTypeText_np (buf : Array Nat) (n : Nat) (hn : n ≤ buf.size) (b e : Nat) (up next : T)
+    (hs : Safe ids.rPegText n up) (hk : Kids G NUL (ruleBody ids.rCppType) b e up) :
+    NP (cppTypeText ids buf (.node ids.rCppType b e up next)) := by
+  change Kids G NUL (.seq (.call R.CPPTYPE) (.call ids.rLiteral)) b e up at hk
+  cases hk with
+  | seq h1 h2 =>
+    obtain ⟨u1, rfl, _, _⟩ := kids_call (by decide) h1
+    obtain ⟨u2, rfl, _, _⟩ := kids_call (by decide) h2
+    simp only [T.append] at hs ⊢
+    simp only [cppTypeText, up?, next?, bind_ok]
+    exact pegText_np buf hn hs.next
+
+theorem fieldType_np (buf : Array Nat) (n : Nat) (hn : n ≤ buf.size) : ∀ fuel : Nat,
+    (∀ b e up next, treeSize up < fuel → Safe ids.rPegText n up → Kids G NUL (ruleBody ids.rFieldType) b e up →
+      NP (parseFieldType ids buf fuel (.node ids.rFieldType b e up next))) ∧
+    (∀ b e up next, treeSize up < fuel → Safe ids.rPegText n up → Kids G NUL (ruleBody ids.rContainerType) b e up →
+      NP (parseContainerType ids buf fuel (.node ids.rContainerType b e up next))) := by
+  intro fuel
+  induction fuel with
+  | zero => exact ⟨fun _ _ _ _ h => absurd h (by omega), fun _ _ _ _ h => absurd h (by omega)⟩
+  | succ fuel ih =>
+    obtain ⟨ihF, ihC⟩ := ih
+    constructor
+    · intro b e up next hsz hs hk
+      change Kids G NUL (.seq (.alt (.call ids.rContainerType) (.alt (.call ids.rBaseType) (.call ids.rIdentifier))) (.opt (.call ids.rAnnotations))) b e up at hk
+      cases hk with
+      | seq h1 h2 =>
+        rename_i mid t1 t2
+        -- the optional annotations
+        have hann : Safe ids.rPegText n t2 →
+            ∀ typ : Ty, NP (if isRule t2 ids.rAnnotations = true then (do let a ← parseAnnotations ids buf t2; pure (typ.setAnns a)) else pure typ : W Ty) := by
+          intro hs2 typ
+          cases h2 with
+          | optNil => simp [isRule]
+          | optSome h2 =>
+            obtain ⟨u, rfl, _, hk2⟩ := kids_call (by decide) h2
+            have := parseAnnotations_np buf n hn _ _ u .nil hs2.up hk2
+            simp only [isRule, ids_rAnnotations, decide_true, if_true]
+            exact NP_bind this (fun _ _ => by simp)
+        cases h1 with
+        | altL h1 =>
+          obtain ⟨u1, rfl, _, hk1⟩ := kids_call (by decide) h1
+          simp only [T.append, treeSize] at hs hsz ⊢
+          have hc := ihC b mid u1 t2 (by omega) hs.up hk1
+          simp only [parseFieldType, checkrule, rule?, up?, next?, ids_rFieldType, ids_rContainerType, ne_eq, not_true_eq_false, if_false, if_true, bind_ok]
+          exact NP_bind hc (fun typ _ => hann hs.next typ)
+        | altR h1 =>
+          cases h1 with
+          | altL h1 =>
+            obtain ⟨u1, rfl, _, hk1⟩ := kids_call (by decide) h1
+            simp only [T.append] at hs ⊢
+            simp only [parseFieldType, checkrule, rule?, up?, next?, ids_rFieldType, ids_rContainerType, ids_rBaseType, ids_rIdentifier, ne_eq, not_true_eq_false, if_false, if_true, bind_ok, pure_eq]
+            simp only [show ((21 : Nat) = 22) = False by decide, show ((37 : Nat) = 22) = False by decide, if_false, or_true, true_or, if_true]
+            exact NP_bind (pegText_np buf hn hs) (fun s _ => hann hs.next _)
+          | altR h1 =>
+            obtain ⟨u1, rfl, _, hk1⟩ := kids_call (by decide) h1
+            simp only [T.append] at hs ⊢
+            simp only [parseFieldType, checkrule, rule?, up?, next?, ids_rFieldType, ids_rContainerType, ids_rBaseType, ids_rIdentifier, ne_eq, not_true_eq_false, if_false, if_true, bind_ok, pure_eq]
+            simp only [show ((21 : Nat) = 22) = False by decide, show ((37 : Nat) = 22) = False by decide, if_false, or_true, true_or, if_true]
+            exact NP_bind (pegText_np buf hn hs) (fun s _ => hann hs.next _)
+    · intro b e up next hsz hs hk
+      change Kids G NUL (.alt (.call ids.rMapType) (.alt (.call ids.rSetType) (.call ids.rListType))) b e up at hk
+      cases hk with
+      | altL hk =>
+        obtain ⟨um, rfl, _, hkm⟩ := kids_call (by decide) hk
+        change Kids G NUL (.seq (.call R.MAP) (.seq (.opt (.call ids.rCppType)) (.seq (.call R.LPOINT) (.seq (.call ids.rFieldType)
+          (.seq (.call R.COMMA) (.seq (.call ids.rFieldType) (.call R.RPOINT))))))) b e um at hkm
+        cases hkm with
+        | seq h1 h2 =>
+        obtain ⟨u1, rfl, _, _⟩ := kids_call (by decide) h1
+        cases h2 with
+        | seq hcpp h3 =>
+        cases h3 with
+        | seq h3 h4 =>
+        obtain ⟨u3, rfl, _, _⟩ := kids_call (by decide) h3
+        cases h4 with
+        | seq h4 h5 =>
+        obtain ⟨u4, rfl, _, hk4⟩ := kids_call (by decide) h4
+        cases h5 with
+        | seq h5 h6 =>
+        obtain ⟨u5, rfl, _, _⟩ := kids_call (by decide) h5
+        cases h6 with
+        | seq h6 h7 =>
+        obtain ⟨u6, rfl, _, hk6⟩ := kids_call (by decide) h6
+        obtain ⟨u7, rfl, _, _⟩ := kids_call (by decide) h7
+        cases hcpp with
+        | optNil =>
+          simp only [T.append, treeSize] at hs hsz ⊢
+          have hs' := hs.up
+          simp [parseContainerType, checkrule, rule?, up?, next?, R.LPOINT]
+          exact NP_bind (ihF _ _ u4 _ (by omega) hs'.next.next.up hk4)
+            (fun kt _ => NP_bind (ihF _ _ u6 _ (by omega) hs'.next.next.next.next.up hk6) (fun vt _ => by simp))
+        | optSome hcpp =>
+          obtain ⟨uc, rfl, _, hkc⟩ := kids_call (by decide) hcpp
+          simp only [T.append, treeSize] at hs hsz ⊢
+          have hs' := hs.up
+          simp [parseContainerType, checkrule, rule?, up?, next?, W_bind_assoc]
+          exact NP_bind (cppTypeText_np buf n hn _ _ uc _ hs'.next.up hkc) (fun c _ =>
+            NP_bind (ihF _ _ u4 _ (by omega) hs'.next.next.next.up hk4)
+              (fun kt _ => NP_bind (ihF _ _ u6 _ (by omega) hs'.next.next.next.next.next.up hk6) (fun vt _ => by simp)))
+      | altR hk =>
+        cases hk with
+        | altL hk =>
+          obtain ⟨um, rfl, _, hkm⟩ := kids_call (by decide) hk
+          change Kids G NUL (.seq (.call R.SET) (.seq (.opt (.call ids.rCppType)) (.seq (.call R.LPOINT) (.seq (.call ids.rFieldType)
+            (.call R.RPOINT))))) b e um at hkm
+          cases hkm with
+          | seq h1 h2 =>
+          obtain ⟨u1, rfl, _, _⟩ := kids_call (by decide) h1
+          cases h2 with
+          | seq hcpp h3 =>
+          cases h3 with
+          | seq h3 h4 =>
+          obtain ⟨u3, rfl, _, _⟩ := kids_call (by decide) h3
+          cases h4 with
+          | seq h4 h5 =>
+          obtain ⟨u4, rfl, _, hk4⟩ := kids_call (by decide) h4
+          obtain ⟨u5, rfl, _, _⟩ := kids_call (by decide) h5
+          cases hcpp with
+          | optNil =>
+            simp only [T.append, treeSize] at hs hsz ⊢
+            have hs' := hs.up
+            simp [parseContainerType, checkrule, rule?, up?, next?, R.LPOINT]
+            exact NP_bind (ihF _ _ u4 _ (by omega) hs'.next.next.up hk4) (fun vt _ => by simp)
+          | optSome hcpp =>
+            obtain ⟨uc, rfl, _, hkc⟩ := kids_call (by decide) hcpp
+            simp only [T.append, treeSize] at hs hsz ⊢
+            have hs' := hs.up
+            simp [parseContainerType, checkrule, rule?, up?, next?, W_bind_assoc]
+            exact NP_bind (cppTypeText_np buf n hn _ _ uc _ hs'.next.up hkc) (fun c _ =>
+              NP_bind (ihF _ _ u4 _ (by omega) hs'.next.next.next.up hk4) (fun vt _ => by simp))
+        | altR hk =>
+          obtain ⟨um, rfl, _, hkm⟩ := kids_call (by decide) hk
+          change Kids G NUL (.seq (.call R.LIST) (.seq (.call R.LPOINT) (.seq (.call ids.rFieldType)
+            (.seq (.call R.RPOINT) (.opt (.call ids.rCppType)))))) b e um at hkm
+          cases hkm with
+          | seq h1 h2 =>
+          obtain ⟨u1, rfl, _, _⟩ := kids_call (by decide) h1
+          cases h2 with
+          | seq h3 h4 =>
+          obtain ⟨u3, rfl, _, _⟩ := kids_call (by decide) h3
+          cases h4 with
+          | seq h4 h5 =>
+          obtain ⟨u4, rfl, _, hk4⟩ := kids_call (by decide) h4
+          cases h5 with
+          | seq h5 hcpp =>
+          obtain ⟨u5, rfl, _, _⟩ := kids_call (by decide) h5
+          cases hcpp with
+          | optNil =>
+            simp only [T.append, treeSize] at hs hsz ⊢
+            have hs' := hs.up
+            simp [parseContainerType, checkrule, rule?, up?, next?, isRule]
+            exact NP_bind (ihF _ _ u4 _ (by omega) hs'.next.next.up hk4) (fun vt _ => by simp)
+          | optSome hcpp =>
+            obtain ⟨uc, rfl, _, hkc⟩ := kids_call (by decide) hcpp
+            simp only [T.append, treeSize] at hs hsz ⊢
+            have hs' := hs.up
+            simp [parseContainerType, checkrule, rule?, up?, next?, isRule]
+            exact NP_bind (ihF _ _ u4 _ (by omega) hs'.next.next.up hk4) (fun vt _ =>
+              NP_bind (cppTypeText_np buf n hn _ _ uc _ hs'.next.next.next.next.up hkc) (fun c _ => by simp))
+
+/-! ### constant values -/
+
+/-- the sibling chain after LWING in a ConstMap: entries `ConstValue COLON ConstValue`, anything else skipped -/
+inductive MapChain : T → Prop
+  | nil : MapChain .nil
+  | skip {r b e up next} : r ≠ ids.rConstValue → MapChain next → MapChain (.node r b e up next)
+  | pair {b e up rc bc ec uc bv ev uv rest} :
+      Kids G NUL (ruleBody ids.rConstValue) b e up → Kids G NUL (ruleBody ids.rConstValue) bv ev uv → MapChain rest →
+      MapChain (.node ids.rConstValue b e up (.node rc bc ec uc (.node ids.rConstValue bv ev uv rest)))
+
+theorem MapChain.append_entries {lo hi : Nat} {t tail : T}
+    (h : Kids G NUL (.star (.seq (.call ids.rConstValue) (.seq (.call R.COLON) (.seq (.call ids.rConstValue) (.opt (.call ids.rListSeparator)))))) lo hi t)
+    (ht : MapChain tail) : MapChain (t.append tail) := by
+  generalize he : Expr.star (.seq (.call ids.rConstValue) (.seq (.call R.COLON) (.seq (.call ids.rConstValue) (.opt (.call ids.rListSeparator))))) = ex at h
+  induction h with
+  | starNil => exact ht
+  | starCons h1 _ _ ih2 =>
+    injection he with he'
+    subst he'
+    have ih := ih2 rfl
+    cases h1 with
+    | seq h1 h2 =>
+      obtain ⟨u1, rfl, _, hk1⟩ := kids_call (by decide) h1
+      cases h2 with
+      | seq h2 h3 =>
+        obtain ⟨u2, rfl, _, _⟩ := kids_call (by decide) h2
+        cases h3 with
+        | seq h3 h4 =>
+          obtain ⟨u3, rfl, _, hk3⟩ := kids_call (by decide) h3
+          cases h4 with
+          | optNil =>
+            simp only [T.append]
+            exact .pair hk1 hk3 ih
+          | optSome h4 =>
+            obtain ⟨u4, rfl, _, _⟩ := kids_call (by decide) h4
+            simp only [T.append]
+            exact .pair hk1 hk3 (.skip (by decide) ih)
+  | _ => cases he
+
+theorem Safe.chain_next {pt n r b e : Nat} {u nx : T} (h : Safe pt n (.node r b e u nx)) : Safe pt n nx := h.next
+
+theorem constValue_np (buf : Array Nat) (n : Nat) (hn : n ≤ buf.size) : ∀ fuel : Nat,
+    (∀ b e up next, treeSize up < fuel → Safe ids.rPegText n up → Kids G NUL (ruleBody ids.rConstValue) b e up →
+      NP (parseConstValue ids buf fuel (.node ids.rConstValue b e up next))) ∧
+    (∀ t, treeSize t < fuel → Safe ids.rPegText n t → All Good t → NP (constListLoop ids buf fuel t)) ∧
+    (∀ t, treeSize t < fuel → Safe ids.rPegText n t → MapChain t → NP (constMapLoop ids buf fuel t)) := by
+  intro fuel
+  induction fuel with
+  | zero => exact ⟨fun _ _ _ _ h => absurd h (by omega), fun _ h => absurd h (by omega), fun _ h => absurd h (by omega)⟩
+  | succ fuel ih =>
+    obtain ⟨ihA, ihB, ihC⟩ := ih
+    refine ⟨?_, ?_, ?_⟩
+    · intro b e up next hsz hs hk
+      change Kids G NUL (.alt (.call ids.rDoubleConstant) (.alt (.call ids.rIntConstant) (.alt (.call ids.rLiteral)
+        (.alt (.call ids.rIdentifier) (.alt (.call ids.rConstList) (.call ids.rConstMap)))))) b e up at hk
+      cases hk with
+      | altL hk =>
+        obtain ⟨u, rfl, _, _⟩ := kids_call (by decide) hk
+        simp [parseConstValue, checkrule, rule?, up?]
+        exact NP_bind (pegText_np buf hn hs) (fun _ _ => by simp)
+      | altR hk =>
+      cases hk with
+      | altL hk =>
+        obtain ⟨u, rfl, _, _⟩ := kids_call (by decide) hk
+        simp [parseConstValue, checkrule, rule?, up?]
+        refine NP_bind (pegText_np buf hn hs) (fun s _ => ?_)
+        split <;> simp
+      | altR hk =>
+      cases hk with
+      | altL hk =>
+        obtain ⟨u, rfl, _, _⟩ := kids_call (by decide) hk
+        simp [parseConstValue, checkrule, rule?, up?]
+        exact NP_bind (pegText_np buf hn hs) (fun _ _ => by simp)
+      | altR hk =>
+      cases hk with
+      | altL hk =>
+        obtain ⟨u, rfl, _, _⟩ := kids_call (by decide) hk
+        simp [parseConstValue, checkrule, rule?, up?]
+        exact NP_bind (pegText_np buf hn hs) (fun _ _ => by simp)
+      | altR hk =>
+      cases hk with
+      | altL hk =>
+        obtain ⟨u, rfl, _, hku⟩ := kids_call (by decide) hk
+        simp only [treeSize] at hsz
+        simp [parseConstValue, checkrule, rule?, up?]
+        exact NP_bind (ihB u (by omega) hs.up (kids_all_good hku)) (fun _ _ => by simp)
+      | altR hk =>
+        obtain ⟨u, rfl, _, hku⟩ := kids_call (by decide) hk
+        change Kids G NUL (.seq (.call R.LWING) (.seq (.star (.seq (.call ids.rConstValue) (.seq (.call R.COLON)
+          (.seq (.call ids.rConstValue) (.opt (.call ids.rListSeparator)))))) (.call R.RWING))) b e u at hku
+        cases hku with
+        | seq h1 h2 =>
+          obtain ⟨u1, rfl, _, _⟩ := kids_call (by decide) h1
+          cases h2 with
+          | seq h2 h3 =>
+            obtain ⟨u3, rfl, _, _⟩ := kids_call (by decide) h3
+            simp only [T.append, treeSize] at hsz hs ⊢
+            simp [parseConstValue, checkrule, rule?, up?, next?]
+            exact NP_bind (ihC _ (by omega) hs.up.next (MapChain.append_entries h2 (MapChain.skip (by decide) .nil)))
+              (fun _ _ => by simp)
+    · intro t hsz hs hg
+      cases t with
+      | nil => simp [constListLoop]
+      | node r b e up next =>
+        simp only [treeSize] at hsz
+        simp only [constListLoop]
+        split
+        · rename_i hr
+          subst hr
+          have hk := hg.head.kids (by decide)
+          exact NP_bind (ihA b e up next (by omega) hs.up hk) (fun _ _ =>
+            NP_bind (ihB next (by omega) hs.next hg.tail) (fun _ _ => by simp))
+        · exact ihB next (by omega) hs.next hg.tail
+    · intro t hsz hs hm
+      cases t with
+      | nil => simp [constMapLoop]
+      | node r b e up next =>
+        simp only [treeSize] at hsz
+        simp only [constMapLoop]
+        cases hm with
+        | skip hr hrest =>
+          simp only [hr, ne_eq, not_false_eq_true, if_true]
+          exact ihC next (by omega) hs.next hrest
+        | pair hk1 hk3 hrest =>
+          simp only [treeSize] at hsz
+          simp only [ne_eq, not_true_eq_false, if_false]
+          refine NP_bind (ihA _ _ _ _ (by omega) hs.up hk1) (fun k _ => ?_)
+          simp only [next?, bind_ok]
+          refine NP_bind (ihA _ _ _ _ (by omega) hs.next.next.up hk3) (fun v _ => ?_)
+          exact NP_bind (ihC _ (by omega) hs.next.next.next hrest) (fun _ _ => by simp)
+
+
+/-! ### fields -/
+
+/-- split a `match x with | .ok a => k a | .err => .err | .panic => .panic | .crash => .crash` whose scrutinee is
+known not to panic; leaves the `.ok` goal -/
+macro "np_match " h:term : tactic =>
+  `(tactic| (split
+             rotate_left
+             · simp
+             · (rename_i hq; exact absurd hq ($h).1)
+             · (rename_i hq; exact absurd hq ($h).2)))
+
+/-- the children of a Field as parseField's loop needs them: every node conforms to its rule, and an EQUAL is
+followed by a ConstValue -/
+inductive FieldChain : T → Prop
+  | nil : FieldChain .nil
+  | eq {b e up bv ev uv rest} : Kids G NUL (ruleBody ids.rConstValue) bv ev uv → FieldChain rest →
+      FieldChain (.node ids.rEQUAL b e up (.node ids.rConstValue bv ev uv rest))
+  | other {r b e up next} : r ≠ ids.rEQUAL → Good r b e up → FieldChain next → FieldChain (.node r b e up next)
+
+theorem FieldChain.call {r lo hi : Nat} {t tail : T} (hr : r ≠ ids.rEQUAL) (h : Kids G NUL (.call r) lo hi t)
+    (ht : FieldChain tail) : FieldChain (t.append tail) := by
+  rcases kids_call_opt h with ⟨rfl, _⟩ | ⟨up, rfl, hlt, hk⟩
+  · exact ht
+  · exact .other hr ⟨hlt, fun _ => hk⟩ ht
+
+theorem FieldChain.optCall {r lo hi : Nat} {t tail : T} (hr : r ≠ ids.rEQUAL) (h : Kids G NUL (.opt (.call r)) lo hi t)
+    (ht : FieldChain tail) : FieldChain (t.append tail) := by
+  cases h with
+  | optNil => exact ht
+  | optSome h => exact FieldChain.call hr h ht
+
+theorem FieldChain.optEq {lo hi : Nat} {t tail : T}
+    (h : Kids G NUL (.opt (.seq (.call ids.rEQUAL) (.call ids.rConstValue))) lo hi t)
+    (ht : FieldChain tail) : FieldChain (t.append tail) := by
+  cases h with
+  | optNil => exact ht
+  | optSome h =>
+    cases h with
+    | seq h1 h2 =>
+      obtain ⟨u1, rfl, _, _⟩ := kids_call (by decide) h1
+      obtain ⟨u2, rfl, _, hk2⟩ := kids_call (by decide) h2
+      simp only [T.append]
+      exact .eq hk2 ht
+
+theorem fieldChain_of_kids {b e : Nat} {up : T} (hk : Kids G NUL (ruleBody ids.rField) b e up) : FieldChain up := by
+  change Kids G NUL (.seq (.call ids.rReservedComments) (.seq (.call ids.rSkip) (.seq (.opt (.call ids.rFieldId))
+    (.seq (.opt (.call ids.rFieldReq)) (.seq (.call ids.rFieldType) (.seq (.call ids.rIdentifier)
+    (.seq (.opt (.seq (.call ids.rEQUAL) (.call ids.rConstValue))) (.seq (.opt (.call ids.rAnnotations))
+    (.seq (.opt (.call ids.rListSeparator)) (.seq (.call ids.rReservedEndLineComments) (.call ids.rSkipLine))))))))))) b e up at hk
+  cases hk with | seq h1 hk =>
+  cases hk with | seq h2 hk =>
+  cases hk with | seq h3 hk =>
+  cases hk with | seq h4 hk =>
+  cases hk with | seq h5 hk =>
+  cases hk with | seq h6 hk =>
+  cases hk with | seq h7 hk =>
+  cases hk with | seq h8 hk =>
+  cases hk with | seq h9 hk =>
+  cases hk with | seq h10 h11 =>
+  refine FieldChain.call (by decide) h1 (FieldChain.call (by decide) h2 (FieldChain.optCall (by decide) h3
+    (FieldChain.optCall (by decide) h4 (FieldChain.call (by decide) h5 (FieldChain.call (by decide) h6
+    (FieldChain.optEq h7 (FieldChain.optCall (by decide) h8 (FieldChain.optCall (by decide) h9
+    (FieldChain.call (by decide) h10 ?_)))))))))
+  have := FieldChain.call (by decide) h11 FieldChain.nil
+  rwa [append_nil] at this
+
+theorem parseReservedComments_good (buf : Array Nat) (n : Nat) (hn : n ≤ buf.size) (r b e : Nat) (up next : T)
+    (hs : Safe ids.rPegText n up) (hg : Good r b e up) (hr : r = ids.rReservedComments ∨ r = ids.rReservedEndLineComments) :
+    NP (parseReservedComments ids buf (.node r b e up next) r) := by
+  rcases hr with rfl | rfl
+  · exact parseReservedComments_np buf n hn _ ids.rSkip b e up next hs hg.1 (hg.kids (by decide))
+  · exact parseReservedComments_np buf n hn _ ids.rSkipLine b e up next hs hg.1 (hg.kids (by decide))
+
+theorem fieldLoop_np (buf : Array Nat) (n : Nat) (hn : n ≤ buf.size) (fuel : Nat) : ∀ (t : T),
+    FieldChain t → ∀ (f : Field), treeSize t < fuel → Safe ids.rPegText n t → NP (fieldLoop ids buf fuel f t) := by
+  intro t hfc
+  induction hfc with
+  | nil => intro f _ _; simp [fieldLoop]
+  | @eq b e up bv ev uv rest hkv hrest ih =>
+    intro f hsz hs
+    simp only [treeSize] at hsz
+    have hcv := (constValue_np buf n hn fuel).1 bv ev uv rest (by omega) hs.next.up hkv
+    simp [fieldLoop]
+    np_match hcv
+    exact ih _ (by omega) hs.next.next
+  | @other r b e up next hr hg hrest ih =>
+    intro f hsz hs
+    simp only [treeSize] at hsz
+    have ihn := fun f' => ih f' (by omega) hs.next
+    rw [fieldLoop.eq_def]
+    simp only []
+    split
+    · exact ihn _
+    split
+    · rename_i h; subst h
+      np_match (parseReservedComments_good buf n hn _ b e up next hs.up hg (.inl rfl))
+      exact ihn _
+    split
+    · rename_i h; subst h
+      np_match (parseReservedComments_good buf n hn _ b e up next hs.up hg (.inr rfl))
+      exact ihn _
+    split
+    · np_match (pegText_np buf hn hs)
+      exact ihn _
+    split
+    · np_match (pegText_np buf hn hs)
+      exact ihn _
+    split
+    · rename_i h; subst h
+      np_match ((fieldType_np buf n hn fuel).1 b e up next (by omega) hs.up (hg.kids (by decide)))
+      exact ihn _
+    split
+    · np_match (pegText_np buf hn hs)
+      exact ihn _
+    split
+    · rename_i h; subst h
+      np_match (parseAnnotations_np buf n hn b e up next hs.up (hg.kids (by decide)))
+      exact ihn _
+    · exact ihn _
+
+theorem parseField_np (buf : Array Nat) (n : Nat) (hn : n ≤ buf.size) (fuel : Nat) (b e : Nat) (up next : T)
+    (hsz : treeSize up < fuel) (hs : Safe ids.rPegText n up) (hk : Kids G NUL (ruleBody ids.rField) b e up) :
+    NP (parseField ids buf fuel (.node ids.rField b e up next)) := by
+  have := fieldLoop_np buf n hn fuel up (fieldChain_of_kids hk) emptyField hsz hs
+  simpa [parseField, checkrule, rule?, up?] using this
+
+/-- the loops over `Field*` -/
+theorem fieldsLoop_np (buf : Array Nat) (n : Nat) (hn : n ≤ buf.size) (fuel : Nat) (post : Field → Field) : ∀ (t : T) (acc : List Field),
+    treeSize t < fuel → Safe ids.rPegText n t → All Good t → NP (fieldsLoop ids buf fuel post acc t) := by
+  intro t
+  induction t with
+  | nil => intro acc _ _ _; simp [fieldsLoop]
+  | node r b e up next _ ihn =>
+    intro acc hsz hs hg
+    simp only [treeSize] at hsz
+    rw [fieldsLoop.eq_def]
+    simp only []
+    split
+    · rename_i h; subst h
+      np_match (parseField_np buf n hn fuel b e up next (by omega) hs.up (hg.head.kids (by decide)))
+      exact ihn _ (by omega) hs.next hg.tail
+    · exact ihn _ (by omega) hs.next hg.tail
+
+/-! ### headers -/
+
+theorem parseInclude_np (buf : Array Nat) (n : Nat) (hn : n ≤ buf.size) (t : Thrift) (r b e : Nat) (up next : T)
+    (hs : Safe ids.rPegText n up) : NP (parseInclude ids buf t (.node r b e up next)) := by
+  simp only [parseInclude, checkrule, rule?, up?, bind_ok]
+  split
+  · simp
+  · simp only [bind_ok]
+    refine NP_bind (pegText_np buf hn hs) (fun s _ => ?_)
+    split
+    · simp
+    · split <;> simp
+
+theorem parseCppInclude_np (buf : Array Nat) (n : Nat) (hn : n ≤ buf.size) (t : Thrift) (r b e : Nat) (up next : T)
+    (hs : Safe ids.rPegText n up) : NP (parseCppInclude ids buf t (.node r b e up next)) := by
+  simp only [parseCppInclude, checkrule, rule?, up?, bind_ok]
+  split
+  · simp
+  · simp only [bind_ok]
+    exact NP_bind (pegText_np buf hn hs) (fun s _ => by simp)
+
+theorem optAnns_np (buf : Array Nat) (n : Nat) (hn : n ≤ buf.size) {lo hi : Nat} {t2 : T}
+    (h2 : Kids G NUL (.opt (.call ids.rAnnotations)) lo hi t2) (hs2 : Safe ids.rPegText n t2) :
+    NP (if isRule t2 ids.rAnnotations = true then parseAnnotations ids buf t2 else pure [] : W Anns) := by
+  cases h2 with
+  | optNil => simp [isRule]
+  | optSome h2 =>
+    obtain ⟨u, rfl, _, hk2⟩ := kids_call (by decide) h2
+    have := parseAnnotations_np buf n hn _ _ u .nil hs2.up hk2
+    simpa [isRule] using this
+
+theorem parseNamespace_np (buf : Array Nat) (n : Nat) (hn : n ≤ buf.size) (t : Thrift) (b e : Nat) (up next : T)
+    (hs : Safe ids.rPegText n up) (hk : Kids G NUL (ruleBody ids.rNamespace) b e up) :
+    NP (parseNamespace ids buf t (.node ids.rNamespace b e up next)) := by
+  change Kids G NUL (.seq (.call R.NAMESPACE) (.seq (.call ids.rNamespaceScope) (.seq (.call ids.rIdentifier)
+    (.opt (.call ids.rAnnotations))))) b e up at hk
+  cases hk with | seq h1 hk =>
+  cases hk with | seq h2 hk =>
+  cases hk with | seq h3 h4 =>
+  obtain ⟨u1, rfl, _, _⟩ := kids_call (by decide) h1
+  obtain ⟨u2, rfl, _, _⟩ := kids_call (by decide) h2
+  obtain ⟨u3, rfl, _, _⟩ := kids_call (by decide) h3
+  simp only [T.append] at hs ⊢
+  simp [parseNamespace, checkrule, rule?, up?, next?]
+  refine NP_bind (pegText_np buf hn hs.next.up) (fun _ _ => ?_)
+  refine NP_bind (pegText_np buf hn hs.next.next.up) (fun _ _ => ?_)
+  exact NP_bind (optAnns_np buf n hn h4 hs.next.next.next) (fun _ _ => by simp)
+
+theorem parseHeader_np (buf : Array Nat) (n : Nat) (hn : n ≤ buf.size) (t : Thrift) (b e : Nat) (up next : T)
+    (hs : Safe ids.rPegText n up) (hk : Kids G NUL (ruleBody ids.rHeader) b e up) :
+    NP (parseHeader ids buf t (.node ids.rHeader b e up next)) := by
+  change Kids G NUL (.seq (.call ids.rSkip) (.seq (.alt (.call ids.rInclude) (.alt (.call ids.rCppInclude) (.call ids.rNamespace)))
+    (.call ids.rSkipLine))) b e up at hk
+  cases hk with | seq h1 hk =>
+  cases hk with | seq h2 h3 =>
+  cases h2 with
+  | altL h =>
+    obtain ⟨u, rfl, _, _⟩ := kids_call (by decide) h
+    rcases kids_call_opt h1 with ⟨rfl, _⟩ | ⟨u1, rfl, _, _⟩ <;>
+    · simp only [T.append] at hs ⊢
+      simp [parseHeader, checkrule, rule?, up?, next?]
+      first
+        | exact parseInclude_np buf n hn t _ _ _ u _ hs.up
+        | exact parseInclude_np buf n hn t _ _ _ u _ hs.next.up
+  | altR h =>
+    cases h with
+    | altL h =>
+      obtain ⟨u, rfl, _, _⟩ := kids_call (by decide) h
+      rcases kids_call_opt h1 with ⟨rfl, _⟩ | ⟨u1, rfl, _, _⟩ <;>
+      · simp only [T.append] at hs ⊢
+        simp [parseHeader, checkrule, rule?, up?, next?]
+        first
+          | exact parseCppInclude_np buf n hn t _ _ _ u _ hs.up
+          | exact parseCppInclude_np buf n hn t _ _ _ u _ hs.next.up
+    | altR h =>
+      obtain ⟨u, rfl, _, hku⟩ := kids_call (by decide) h
+      rcases kids_call_opt h1 with ⟨rfl, _⟩ | ⟨u1, rfl, _, _⟩ <;>
+      · simp only [T.append] at hs ⊢
+        simp [parseHeader, checkrule, rule?, up?, next?]
+        first
+          | exact parseNamespace_np buf n hn t _ _ u _ hs.up hku
+          | exact parseNamespace_np buf n hn t _ _ u _ hs.next.up hku
+
+
+/-! ### definitions -/
+
+theorem parseConst_np (buf : Array Nat) (n : Nat) (hn : n ≤ buf.size) (fuel : Nat) (cm : Bytes) (b e : Nat) (up next : T)
+    (hsz : treeSize up < fuel) (hs : Safe ids.rPegText n up) (hk : Kids G NUL (ruleBody ids.rConst) b e up) :
+    NP (parseConst ids buf fuel cm (.node ids.rConst b e up next)) := by
+  change Kids G NUL (.seq (.call R.CONST) (.seq (.call ids.rFieldType) (.seq (.call ids.rIdentifier) (.seq (.call ids.rEQUAL)
+    (.seq (.call ids.rConstValue) (.opt (.call ids.rListSeparator))))))) b e up at hk
+  cases hk with | seq h1 hk =>
+  cases hk with | seq h2 hk =>
+  cases hk with | seq h3 hk =>
+  cases hk with | seq h4 hk =>
+  cases hk with | seq h5 h6 =>
+  obtain ⟨u1, rfl, _, _⟩ := kids_call (by decide) h1
+  obtain ⟨u2, rfl, _, hk2⟩ := kids_call (by decide) h2
+  obtain ⟨u3, rfl, _, _⟩ := kids_call (by decide) h3
+  obtain ⟨u4, rfl, _, _⟩ := kids_call (by decide) h4
+  obtain ⟨u5, rfl, _, hk5⟩ := kids_call (by decide) h5
+  simp only [T.append, treeSize] at hs hsz ⊢
+  simp [parseConst, checkrule, rule?, up?, next?]
+  refine NP_bind ((fieldType_np buf n hn fuel).1 _ _ u2 _ (by omega) hs.next.up hk2) (fun _ _ => ?_)
+  refine NP_bind (pegText_np buf hn hs.next.next) (fun _ _ => ?_)
+  exact NP_bind ((constValue_np buf n hn fuel).1 _ _ u5 _ (by omega) hs.next.next.next.next.up hk5) (fun _ _ => by simp)
+
+theorem parseTypedef_np (buf : Array Nat) (n : Nat) (hn : n ≤ buf.size) (fuel : Nat) (cm : Bytes) (b e : Nat) (up next : T)
+    (hsz : treeSize up < fuel) (hs : Safe ids.rPegText n up) (hk : Kids G NUL (ruleBody ids.rTypedef) b e up) :
+    NP (parseTypedef ids buf fuel cm (.node ids.rTypedef b e up next)) := by
+  change Kids G NUL (.seq (.call R.TYPEDEF) (.seq (.call ids.rFieldType) (.call ids.rIdentifier))) b e up at hk
+  cases hk with | seq h1 hk =>
+  cases hk with | seq h2 h3 =>
+  obtain ⟨u1, rfl, _, _⟩ := kids_call (by decide) h1
+  obtain ⟨u2, rfl, _, hk2⟩ := kids_call (by decide) h2
+  obtain ⟨u3, rfl, _, _⟩ := kids_call (by decide) h3
+  simp only [T.append, treeSize] at hs hsz ⊢
+  simp [parseTypedef, checkrule, rule?, up?, next?]
+  refine NP_bind ((fieldType_np buf n hn fuel).1 _ _ u2 _ (by omega) hs.next.up hk2) (fun _ _ => ?_)
+  exact NP_bind (pegText_np buf hn hs.next.next) (fun _ _ => by simp)
+
+theorem treeSize_append (a b : T) : treeSize (a.append b) = treeSize a + treeSize b := by
+  induction a with
+  | nil => simp [T.append, treeSize]
+  | node r b0 e0 up next _ ih => simp only [T.append, treeSize, ih]; omega
+
+/-- `KW Identifier LWING Field* RWING` as parseStruct / parseUnion walk it -/
+theorem parseStructLike_np (buf : Array Nat) (n : Nat) (hn : n ≤ buf.size) (fuel : Nat) (cat rule kw : Nat) (cm : Bytes)
+    (b e : Nat) (up next : T) (hkw : NUL.getD kw true = false)
+    (hsz : treeSize up < fuel) (hs : Safe ids.rPegText n up)
+    (hk : Kids G NUL (.seq (.call kw) (.seq (.call ids.rIdentifier) (.seq (.call R.LWING) (.seq (.star (.call ids.rField)) (.call R.RWING))))) b e up) :
+    NP (parseStructLike ids buf fuel cat rule cm (.node rule b e up next)) := by
+  cases hk with | seq h1 hk =>
+  cases hk with | seq h2 hk =>
+  cases hk with | seq h3 hk =>
+  obtain ⟨u1, rfl, _, _⟩ := kids_call hkw h1
+  obtain ⟨u2, rfl, _, _⟩ := kids_call (by decide) h2
+  obtain ⟨u3, rfl, _, _⟩ := kids_call (by decide) h3
+  have hg := kids_all_good hk
+  simp only [T.append, treeSize] at hs hsz ⊢
+  simp [parseStructLike, checkrule, rule?, up?, next?]
+  refine NP_bind (pegText_np buf hn hs.next) (fun _ _ => ?_)
+  exact NP_bind (fieldsLoop_np buf n hn fuel id _ [] (by omega) hs.next.next.next hg) (fun _ _ => by simp)
+
+theorem parseException_np (buf : Array Nat) (n : Nat) (hn : n ≤ buf.size) (fuel : Nat) (cm : Bytes)
+    (b e : Nat) (up next : T) (hsz : treeSize up < fuel) (hs : Safe ids.rPegText n up)
+    (hk : Kids G NUL (ruleBody ids.rException) b e up) :
+    NP (parseException ids buf fuel cm (.node ids.rException b e up next)) := by
+  change Kids G NUL (.seq (.call R.EXCEPTION) (.seq (.call ids.rIdentifier) (.seq (.call R.LWING) (.seq (.star (.call ids.rField)) (.call R.RWING))))) b e up at hk
+  cases hk with | seq h1 hk =>
+  cases hk with | seq h2 hk =>
+  obtain ⟨u1, rfl, _, _⟩ := kids_call (by decide) h1
+  obtain ⟨u2, rfl, _, _⟩ := kids_call (by decide) h2
+  have hg := kids_all_good hk
+  simp only [T.append, treeSize] at hs hsz ⊢
+  simp [parseException, checkrule, rule?, up?, next?]
+  refine NP_bind (pegText_np buf hn hs.next) (fun _ _ => ?_)
+  exact NP_bind (fieldsLoop_np buf n hn fuel id _ [] (by omega) hs.next.next hg) (fun _ _ => by simp)
+
+theorem parseThrows_np (buf : Array Nat) (n : Nat) (hn : n ≤ buf.size) (fuel : Nat)
+    (b e : Nat) (up next : T) (hsz : treeSize up < fuel) (hs : Safe ids.rPegText n up)
+    (hk : Kids G NUL (ruleBody ids.rThrows) b e up) :
+    NP (parseThrows ids buf fuel (.node ids.rThrows b e up next)) := by
+  change Kids G NUL (.seq (.call R.THROWS) (.seq (.call R.LPAR) (.seq (.star (.call ids.rField)) (.call R.RPAR)))) b e up at hk
+  cases hk with | seq h1 hk =>
+  obtain ⟨u1, rfl, _, _⟩ := kids_call (by decide) h1
+  have hg := kids_all_good hk
+  simp only [T.append, treeSize] at hs hsz ⊢
+  simp [parseThrows, checkrule, rule?, up?, next?]
+  exact fieldsLoop_np buf n hn fuel _ _ [] (by omega) hs.next hg
+
+
 end Walker
+
